@@ -66,7 +66,7 @@ func VerifC03_DlasrtBadSort() {
 // symbolic c and s (no c^2+s^2 = 1 assumption).
 func VerifC03_Dlasr() { verifC03dlasr(false) }
 
-// VerifC03_DlasrLeftTopBackward: the (Left, Top, Backward) arm alone. OPEN VIOLATION F10 (notes/C03.md).
+// VerifC03_DlasrLeftTopBackward: the (Left, Top, Backward) arm alone. Found finding F10 (fixed in /repo abcafcd), see notes/C03.md.
 func VerifC03_DlasrLeftTopBackward() { verifC03dlasr(true) }
 
 func verifC03dlasr(onlyLTB bool) {
